@@ -381,6 +381,37 @@ def run(desc, M):
                 M.eq(pr.g, ga_ + gb_, f"canonical product ({variant}): g adds up")
                 if variant == "out":
                     M.check(list(pa.variables) == [names[v] for v in sa] and tuple(np.shape(pa.K)) == (2, 2), "canonical product (out of place) leaves the left operand")
+            # the same product through GaussianDistribution.product (moment form): the result is the Gaussian with precision K_a (+) K_b and
+            # potential h_a (+) h_b, i.e. K_total * Sigma = I and K_total * mu = h_total; in-place form included
+            Kt = {}
+            ht = {}
+            for scope, Kx, hx in ((sa, Ka, ha), (sb, Kb, hb)):
+                for i_, u in enumerate(scope):
+                    ht[names[u]] = ht.get(names[u], M.const(0)) + hx[i_][0]
+                    for j_, v in enumerate(scope):
+                        Kt[(names[u], names[v])] = Kt.get((names[u], names[v]), M.const(0)) + Kx[i_][j_]
+            for variant in ("out", "inplace"):
+                g_left = GaussianDistribution([names[v] for v in sa], [M.impl(mu[v]) for v in sa], [[M.impl(cov[u][v]) for v in sa] for u in sa])
+                if variant == "out":
+                    gp = g_left.product(gb, inplace=False)
+                else:
+                    ret = g_left.product(gb)
+                    M.check(ret is None, "GaussianDistribution.product(inplace=True) returns None")
+                    gp = g_left
+                if not M.check(set(gp.variables) == {names[v] for v in set(sa) | set(sb)} and len(gp.variables) == 3,
+                               f"Gaussian product ({variant}): the result is over the union scope", detail=str(gp.variables)):
+                    continue
+                vs_ = list(gp.variables)
+                for u in vs_:
+                    acc = M.const(0)
+                    for t_, w_ in enumerate(vs_):
+                        acc = acc + Kt.get((u, w_), M.const(0)) * gp.mean[t_][0]
+                    M.eq(acc, ht[u], f"Gaussian product ({variant}): K_total mu = h_total", detail=u)
+                    for j_, v in enumerate(vs_):
+                        acc = M.const(0)
+                        for t_, w_ in enumerate(vs_):
+                            acc = acc + Kt.get((u, w_), M.const(0)) * gp.covariance[t_][j_]
+                        M.eq(acc, 1 if u == v else 0, f"Gaussian product ({variant}): K_total Sigma = I", detail=f"{u},{v}")
     else:
         g2 = g.copy()
         M.check(list(g2.variables) == list(g.variables), "copy keeps the variables")
